@@ -580,3 +580,88 @@ Example C16_unc_factor_example :
   unc_factor 2 4 PI = Some (2, Root false 1) /\ unc_factor 2 4 CI = Some (0, Root false 1) /\
   unc_factor 2 4 OtherInterval = None /\ t_args (1 # 10) 10 2 = Some (19 # 20, 9%Z) /\ t_args (1 # 10) 10 3 = None.
 Proof. vm_compute. repeat split; reflexivity. Qed.
+
+(* ==================================================================================================
+   Savings uncertainty (ReportingMetrics.total_savings_uncertainty, fsu, predicted_data_point_unc) computed by the
+   model itself - month count M, frequency factor, ASHRAE approximation factor - over the constants that
+   harness/translate_metrics.py reads off the source on every run (Generated/MetricsGen.v); scipy's t quantile stays
+   an input.  Own imports, at the end: a failure here leaves the theorems above counted. *)
+From V Require Import Generated.MetricsGen Model.MetricsReport Proofs.MetricsReportProofs.
+
+(* U^2 = (factor * E * t)^2 * cvrmse_autocorr_adj^2 * n / (m n') * (1 + K / n'), with the sign of factor * E * t * cv *)
+Theorem C16_total_savings_uncertainty : forall f M E t neg s n m np neg' s',
+  total_savings_uncertainty f M E t (Root neg s) n m np = Root neg' s' ->
+  (0 < m)%Z /\ 0 < np /\
+  s' == sqr (freq_factor f M * E * t) * s * (inject_Z n / (inject_Z m * np) * (1 + gen_approx_const / np)) /\
+  neg' = xorb neg (Qltb (freq_factor f M * E * t) 0).
+Proof. exact tsu_spec. Qed.
+Print Assumptions C16_total_savings_uncertainty.
+
+Theorem C16_total_savings_uncertainty_undefined : forall f M E t cv n m np,
+  total_savings_uncertainty f M E t cv n m np = Undef <->
+  ((forall neg s, cv <> Root neg s) \/ (m <= 0)%Z \/ np <= 0).
+Proof. exact tsu_undefined. Qed.
+Print Assumptions C16_total_savings_uncertainty_undefined.
+
+(* fsu * savings = U and predicted_data_point_unc^2 * m = U^2 *)
+Theorem C16_fsu : forall neg s sv neg' s', fsu (Root neg s) sv = Root neg' s' ->
+  ~ sv == 0 /\ s' * (sv * sv) == s /\ neg' = xorb neg (Qltb sv 0).
+Proof. exact fsu_spec. Qed.
+Print Assumptions C16_fsu.
+
+Theorem C16_fsu_zero_savings : forall neg s sv, sv == 0 -> fsu (Root neg s) sv = if Qeq_bool s 0 then NaN else Inf neg.
+Proof. exact fsu_zero_savings. Qed.
+Print Assumptions C16_fsu_zero_savings.
+
+Theorem C16_predicted_data_point_unc : forall neg s m neg' s', predicted_data_point_unc (Root neg s) m = Root neg' s' ->
+  (0 < m)%Z /\ s' * inject_Z m == s /\ neg' = neg.
+Proof. exact point_unc_spec. Qed.
+Print Assumptions C16_predicted_data_point_unc.
+
+(* M counts calendar months of rows with two finite cells only, and never exceeds 12 *)
+Theorem C16_month_count : forall rows months, (forall x, In x months -> (1 <= x <= 12)%Z) ->
+  (0 <= month_count rows months <= 12)%Z.
+Proof. exact month_count_le_12. Qed.
+Print Assumptions C16_month_count.
+
+Theorem C16_month_count_nonfinite_ignored : forall a r b ma mr mb, nonfinite r -> length a = length ma ->
+  finite_months (a ++ r :: b) (ma ++ mr :: mb) = finite_months (a ++ b) (ma ++ mb).
+Proof. exact finite_months_nonfinite. Qed.
+Print Assumptions C16_month_count_nonfinite_ignored.
+
+Example C16_uncertainty_example :
+  let rows := [(Some 10, Some 12); (None, Some 3); (Some 20, Some 21); (Some 30, Some 30)] in
+  let u := reporting_uncertainty Daily rows [1; 1; 2; 3]%Z 2 (Root false (1 # 100)) 100 50 in
+  u_M u = 3%Z /\ u_total u = Root false (337071660471 # 2500000000) /\
+  u_fsu u = Root false (37452406719 # 2500000000) /\ u_point u = Root false (112357220157 # 2500000000) /\
+  month_count rows [1; 1; 2; 3]%Z = month_count [(Some 10, Some 12); (Some 20, Some 21); (Some 30, Some 30)] [1; 2; 3]%Z /\
+  u_total (reporting_uncertainty Hourly rows [1; 1; 2; 3]%Z 2 Undef 100 50) = Undef.
+Proof. vm_compute. repeat split; reflexivity. Qed.
+
+(* ---- obligations over the regenerated constants (closed by computation on what the source says NOW) ---- *)
+
+(* every (field, numerator, denominator) entry of the source's _safe_divide table denotes the value the model reports
+   for that field: nmae = mae / mean(observed), pnrmse_adj = rmse_adj / iqr(observed), ... *)
+Theorem C16_source_ratio_table_is_the_model : forall pl d p mn np,
+  let m := baseline_p pl d p mn in
+  forall e, In e gen_ratio_table -> ratio_entry_value pl m np p mn e = ratio_field_value pl m np p mn (fst (fst e)).
+Proof. exact ratio_table_entries. Qed.
+Print Assumptions C16_source_ratio_table_is_the_model.
+
+(* the constants the hand-written model builds in are the ones in the source: _min_denominator = 1e-3, variance ddof 0,
+   IQR levels 1/4 and 3/4, ddof floors "< 1 -> 1", lag 1, fallback n' = 1, daily PNRMSE levels 5 % and 95 % *)
+Theorem C16_source_constants_are_the_modelled_ones : constants_eqb generated_constants modelled_constants = true.
+Proof. vm_compute. reflexivity. Qed.
+Print Assumptions C16_source_constants_are_the_modelled_ones.
+
+(* the ASHRAE constant is 2, and the frequency factor is positive and strictly increasing in M = 1 .. 12 for daily and
+   billing data: more months never shrink the reported uncertainty *)
+Theorem C16_source_uncertainty_constants : gen_approx_const == 2 /\ factor_table_ok = true /\
+  gen_confidence_default == 9 # 10 /\ gen_t_tail_default == 2.
+Proof. vm_compute. repeat split; reflexivity. Qed.
+Print Assumptions C16_source_uncertainty_constants.
+
+Example C16_source_constants_example :
+  freq_factor Hourly 7 == 63 # 50 /\ freq_factor Daily 12 == 557 # 400 /\ freq_factor Billing 1 == 48669 # 50000 /\
+  length gen_ratio_table = 10%nat.
+Proof. vm_compute. repeat split; reflexivity. Qed.
